@@ -77,7 +77,10 @@ def unique_rule(ctx, p, K):
     # (2) both branches accumulate the SAME term as the dense form
     pix = E_("pix_indexes_for_sub_slim_index", isub, c)
     term = E_("pix_weights_for_sub_slim_index", isub, c) / n2
-    chk = E_("pix_check", pix)
+    # the slot memory: the local array that is cleared as a whole once per data pixel (whatever it is called)
+    mem = [s_.arr for s_ in S.stores if s_.local and len(s_.loops) == 1 and s_.idx and all(x == SLICE for x in s_.idx)]
+    MEM = mem[0] if len(set(mem)) == 1 else "pix_check"
+    chk = E_(MEM, pix)
     cname = acc_name_of(su[0].idx[1]) if len(su[0].idx) == 2 else None
     slot_new = S_(cname + "~") if cname else None
     # "first occurrence of this source pixel for this data pixel": the remembered slot is still the -1 it is cleared to (the memory only ever holds -1 or a slot >= 0 - decided
@@ -97,7 +100,7 @@ def unique_rule(ctx, p, K):
     if len(sw) == 1 and not real_guards(sw[0].guards):
         # merged spelling: the first-occurrence branch records the new slot in pix_check[pix] and ONE accumulation after the branch adds at the remembered slot
         # (which on a first occurrence is the slot just recorded).  Equivalent exactly when the slot is remembered before the accumulation reads it.
-        rem = [s for s in S.stores_to("pix_check") if len(s.loops) == 3]
+        rem = [s for s in S.stores_to(MEM) if len(s.loops) == 3]
         if len(rem) == 1 and rem[0].node.lineno < sw[0].node.lineno and len(real_guards(rem[0].guards)) == 1 and is_first(real_guards(rem[0].guards)[0]):
             merged = rem[0]
             rep, new = [sw[0]], [rem[0]]
@@ -114,7 +117,7 @@ def unique_rule(ctx, p, K):
             and {c_.key() for c_ in real_guards(su[0].guards)} == {c_.key() for c_ in real_guards(nw.guards)}
         ctx.ob(rule, f.key + ":slots", okslots, where=f, node=nw.node, construct=f"repeat -> {list(map(repr, r.idx))}; new -> {list(map(repr, nw.idx))}; index store {list(map(repr, su[0].idx))}",
                message="a repeat is added at the slot remembered for that source pixel; a new source pixel takes the next free slot, where its index is recorded")
-        sc = [s for s in S.stores_to("pix_check")]
+        sc = [s for s in S.stores_to(MEM)]
         remember = [s for s in sc if len(s.loops) == 3]
         reset = [s for s in sc if len(s.loops) == 1]
         okc = len(remember) == 1 and remember[0].idx == (pix,) and value_poly(remember[0].value) == slot_new and len(reset) == 1 and value_poly(reset[0].value) == NEG1 and all(x == SLICE for x in reset[0].idx) and not real_guards(reset[0].guards)
